@@ -2,8 +2,10 @@ package main
 
 import (
 	"verif/harness/internal/c19"
+	"verif/harness/internal/c20"
 )
 
 func init() {
 	checks["C19"] = c19.Run
+	checks["C20"] = c20.Run
 }
